@@ -255,7 +255,8 @@ class SafeLearner(Learner):
         try:
             params = self.learner.params
             params = params if not callable(params) else params()
-            params = params if isinstance(params,dict) else {'params':str(params)}
+            #copy so that adding 'family' below never writes into a dict that belongs to the learner
+            params = dict(params) if isinstance(params,dict) else {'params':str(params)}
         except AttributeError:
             params = {}
 
